@@ -17,6 +17,7 @@ EXPLANATION = (
     "list accesses by a Sylt index add 1, pop/last use length - 1; (INDEX-BOUNDS) a guard on a Sylt index lets both ends of "
     "the valid range through; (GLOBAL-LEAK) accidental global writes inside library "
     "functions are reported as information."
+    ' (CALLBACK-ROLES) each callback is called with values of the declared roles (element / accumulator / key-value pair), inferred in the Lua body from the declared parameter types; (INDEX-BOUNDS) index guards evaluated at both ends of the valid range.'
 )
 UNDECIDED = "model equivalence over operation histories, the semantics of map/filter/fold callbacks, iteration order of pairs()."
 
@@ -80,6 +81,7 @@ def run(F, rep, tier):
     for m in STD:
         mods[m] = syparse.read_module(F.read(os.path.join("std", m + ".sy")))
     externals(rep, lua, mods)
+    callback_roles(rep, lua, mods)
     aliases(rep, mods)
     key_norm(rep, lua)
     constructors(rep, lua)
@@ -126,6 +128,76 @@ def externals(rep, lua, mods):
                                "callback parameter `%s` of %s is declared with %d parameter(s) and called with %s argument(s) (%d call sites)" % (
                                    pname, name, want_cb, got, len(calls)), sites=len(calls))
     rep.floor("EXTERNALS", "external declarations", n, 45)
+
+
+def _show_ty(t):
+    if not isinstance(t, tuple):
+        return str(t)
+    if t[0] == "generic":
+        return "*" + t[1]
+    if t[0] == "list":
+        return "[" + _show_ty(t[1]) + "]"
+    if t[0] == "tuple":
+        return "(" + ", ".join(_show_ty(x) for x in t[1]) + ")"
+    if t[0] == "user":
+        return t[1] + ("(" + ", ".join(_show_ty(x) for x in t[2]) + ")" if t[2] else "")
+    if t[0] == "fn":
+        return "fn " + ", ".join(_show_ty(x) for x in t[2]) + " -> " + _show_ty(t[3])
+    return t[0]
+
+
+def callback_roles(rep, lua, mods):
+    """the Sylt declaration of an external is what user callbacks are type-checked against; the Lua implementation must
+    hand each callback parameter a value of the declared role.  Roles are inferred in the Lua body from the declared
+    parameter types: the parameters themselves, and the loop variables of `for k, v in pairs(p)` over a list (v: element),
+    a Dict (v: the stored (key, value) pair) or a Set (v: element)."""
+    n = 0
+    for mname, mod in mods.items():
+        for name, types in sorted(mod["externals"].items()):
+            for t in types:
+                if t[0] != "fn" or name not in lua.globals or not any(p[0] == "fn" for p in t[2]):
+                    continue
+                kind, e = lua.globals[name]
+                if kind != "function":
+                    continue
+                env = {}
+                for i, p in enumerate(t[2]):
+                    if i < len(e["params"]):
+                        env[e["params"][i]] = p
+                for x in luaparse.walk(e["body"]):
+                    if x.get("k") == "ForIn" and len(x["es"]) == 1 and x["es"][0].get("k") == "Call":
+                        c = x["es"][0]
+                        if c["f"].get("k") == "Name" and c["f"]["name"] in ("pairs", "ipairs") and len(c["args"]) == 1 \
+                                and c["args"][0].get("k") == "Name" and c["args"][0]["name"] in env and len(x["names"]) == 2:
+                            ct = env[c["args"][0]["name"]]
+                            if ct[0] == "list":
+                                env[x["names"][1]] = ct[1]
+                            elif ct[0] == "user" and ct[1] == "Dict" and len(ct[2]) == 2:
+                                env[x["names"][1]] = ("tuple", list(ct[2]))
+                            elif ct[0] == "user" and ct[1] == "Set" and len(ct[2]) == 1:
+                                env[x["names"][1]] = ct[2][0]
+                for i, p in enumerate(t[2]):
+                    if p[0] != "fn" or i >= len(e["params"]):
+                        continue
+                    pname = e["params"][i]
+                    calls = [c for c in luaparse.walk(e["body"]) if c.get("k") == "Call" and c["f"].get("k") == "Name" and c["f"]["name"] == pname]
+                    for ci, c in enumerate(calls):
+                        for j, a in enumerate(c["args"]):
+                            if j >= len(p[2]):
+                                continue
+                            key = "%s.%s|%s#%d|arg%d" % (mname, name, pname, ci + 1, j + 1)
+                            if a.get("k") == "Name" and a["name"] in env:
+                                n += 1
+                                got, want = env[a["name"]], p[2][j]
+                                rep.ob("CALLBACK-ROLES", key, got == want,
+                                       "%s calls its callback `%s` with `%s` (%s) as argument %d, declared in std/%s.sy as %s" % (
+                                           name, pname, a["name"], _show_ty(got), j + 1, mname, _show_ty(want)),
+                                       "sylt-compiler/src/preamble.lua:%s" % c.get("line"))
+                            else:
+                                rep.ob("CALLBACK-ROLES", key, False,
+                                       "cannot tell the role of argument %d (`%s`) that %s passes to its callback `%s`" % (
+                                           j + 1, luaparse.show(a), name, pname), "sylt-compiler/src/preamble.lua:%s" % c.get("line"))
+    rep.floor("CALLBACK-ROLES", "callback arguments with an inferred role", n, 10)
 
 
 def aliases(rep, mods):
